@@ -42,6 +42,11 @@ HAND = [
     "start: @:'a' | @+:'b' | ='c' | +='d' ;\n",
     "@@grammar :: G\n@@whitespace :: /[ \\t]+/\n@@nameguard :: False\n@@ignorecase\n@@namechars :: '-'\n@@comments :: /#.*/\n@@eol_comments :: ?\"//.*\"\n@@parseinfo :: True\n@@left_recursion :: False\n@@memoization :: False\n@@keyword :: a b 'c'\n@@keyword :: (d e)\n\nstart: 'a' ;\n",
     "@@whitespace :: None\n\nstart: 'a' ;\n",
+    "@@whitespace ::\n\nstart: 'a' 'b' ;\n",
+    "@@whitespace :: \n@@nameguard :: False\n\nstart: {'a'} {} 'b' ;\n",
+    "@@whitespace :: False\n\nstart: 'a' ;\n",
+    "start: {} a={} 'b' [{}] ;\n",
+    "start: ','<{'a'}+ | ';'>{'b'}+ | ','<{x}- ;\nx: 'x' ;\n",
     "@@whitespace :: ' \\t'\n\nstart: 'a' ;\n",
     "start: &'a' !'b' ->'c' /./ $ $-> () !() {} ~ ;\n",
     "start: `1` `a b` ```x\ny``` ^`m` ^^^`n` ;\n",
